@@ -29,8 +29,8 @@ COMPONENTS = {
              "DropLast wrapper (same model, ignores the extra prev_hedge columns)"],
 }
 ASSUMPTIONS = [
-    "two evaluation orders of the same maths are compared within 16 ulp (direct features) or 1e-4 (float32) / 1e-9 "
-    "(float64) relative+absolute (model outputs, P&L, loss): observed differences are <= 1e-6 / 1e-13",
+    "two evaluation orders of the same maths are compared within 16 ulp (direct features) or 1e-4 (float32) / 1e-11 "
+    "(float64) relative+absolute (model outputs, P&L, loss): worst observed difference/tolerance over 3000 large runs: 0.2 / 1e-3",
     "prev_hedge columns vs previous output: bitwise",
     "'empty' feature excluded; CPU only",
 ]
@@ -123,7 +123,7 @@ def execute(program):
 def _tol(dtype, loose):
     eps = torch.finfo(dtype).eps
     if loose:
-        return (1e-4, 1e-4) if dtype == torch.float32 else (1e-9, 1e-9)
+        return (1e-4, 1e-4) if dtype == torch.float32 else (1e-11, 1e-11)
     return (16 * eps, 16 * eps)
 
 
